@@ -50,7 +50,9 @@ exactly one argument)
                    applies to B(1/T-1/T_ref) and not to B/T); it is < 1e-12 whenever B/T < 560.
   melt/ge_liquid   eta >= eta_liq, mu >= mu_liq (exact comparisons: the code clamps with the same numbers)
   melt/henning_zero      phi == 0  => (eta, mu) == (eta_pre, mu_pre) exactly
-  melt/henning_beyond    phi > crit + width (the same double sum as the code) => (eta, mu) == (eta_liq, mu_liq) exactly
+  melt/henning_beyond    phi > (crit + width)(1 + 4 eps) => (eta, mu) == (eta_liq, mu_liq) exactly (melt fractions within
+                         4 ulp of the threshold only have to satisfy melt/ge_liquid and monotonicity: a correct
+                         implementation may round crit+width differently)
   melt/henning_mono      eta non-increasing along the sorted melt fractions (SLACK)
   melt/off         returns the pre-melt values unchanged.
 
@@ -124,7 +126,7 @@ ASSUMPTIONS = ['monotonicity slack 1e-12 relative (+ 8 eps * exponent magnitude 
 
 FAMILIES = ['radio_isotope', 'radio_fixed', 'cool', 'visc_arrhenius', 'visc_reference', 'visc_constant',
             'melt_henning', 'melt_spohn', 'melt_off']
-PHI_TAGS = ['zero', 'one', 'crit', 'just_below_crit', 'crit_plus_width', 'just_beyond', 'beyond', 'mid_window']
+PHI_TAGS = ['zero', 'one', 'crit', 'just_below_crit', 'crit_plus_width', 'just_beyond', 'barely_beyond', 'beyond', 'mid_window']
 
 
 def _R():
@@ -339,7 +341,7 @@ def required_labels(tier):
     return ['family:' + f for f in FAMILIES] + [
         'scalar', 'array', 'radio:n=1', 'radio:n>=2', 'radio:t=ref', 'radio:t<ref', 'radio:t>ref', 'fixed:halflife=0',
         'cool:Nu>2', 'cool:Nu=2', 'cool:thin', 'cool:dT=0', 'visc:addT', 'visc:no_addT', 'visc:clamped', 'visc:unclamped',
-        'henning:phi=0', 'henning:below_crit', 'henning:window', 'henning:beyond', 'henning:eta_pre=eta_liq',
+        'henning:phi=0', 'henning:below_crit', 'henning:window', 'henning:beyond', 'henning:beyond_exact_checked', 'henning:eta_pre=eta_liq',
         'spohn:visc_clamped', 'spohn:visc_free', 'spohn:shear_clamped', 'spohn:shear_free']
 
 
@@ -736,7 +738,7 @@ def _resolve_phi(p, crit, width):
         return float(p)
     cpw = crit + width
     return {'zero': 0.0, 'one': 1.0, 'crit': crit, 'just_below_crit': math.nextafter(crit, 0.0), 'crit_plus_width': cpw,
-            'just_beyond': math.nextafter(cpw, 1.0), 'beyond': 0.5 * (cpw + 1.0), 'mid_window': crit + 0.5 * width}[p]
+            'just_beyond': math.nextafter(cpw, 1.0), 'barely_beyond': cpw * (1.0 + 16.0 * EPS), 'beyond': 0.5 * (cpw + 1.0), 'mid_window': crit + 0.5 * width}[p]
 
 
 def _ev_henning(case, c):
@@ -774,7 +776,8 @@ def _ev_henning(case, c):
                     '%s phi=0: viscosity %r != pre-melt %r; %s' % (md, eta[i], eta_pre, ctx))
             c.check(mu[i] == mu_pre, {'clause': 'melt/henning_zero', 'what': 'shear'},
                     '%s phi=0: shear %r != pre-melt %r; %s' % (md, mu[i], mu_pre, ctx))
-        if p > cpw:
+        if p > cpw * (1.0 + 4.0 * EPS):     # clear of the threshold however crit+width is rounded by an implementation
+            c.label('henning:beyond_exact_checked')
             c.check(eta[i] == eta_liq, {'clause': 'melt/henning_beyond', 'what': 'viscosity'},
                     '%s phi=%r > crit+width=%r: viscosity %r != liquid viscosity %r; %s' % (md, p, cpw, eta[i], eta_liq, ctx))
             c.check(mu[i] == mu_liq, {'clause': 'melt/henning_beyond', 'what': 'shear'},
